@@ -488,7 +488,7 @@ func forgeBlock(n *node, txns coin.Transactions, when uint64, fee uint64, mut fu
 	return coin.SignedBlock{Block: b, Sig: cipher.MustSignHash(b.HashHeader(), sk)}
 }
 
-var headerMuts = []string{"seq+1", "seq-1", "seq0", "time=", "time-", "prev", "prev0", "body", "ux", "fee", "ver", "sigflip", "forger", "drop-tx", "dup-tx", "swap-tx", "add-bad-tx"}
+var headerMuts = []string{"seq+1", "seq-1", "seq0", "time=", "time-", "prev", "prev0", "body", "ux", "fee", "ver", "sigflip", "forger", "drop-tx", "dup-tx", "swap-tx", "add-bad-tx", "strip-txs"}
 
 func ledgerGen(r *Rng, tier string, emit func(string)) {
 	initKeys()
@@ -1163,6 +1163,7 @@ func (g *genCtx) mutatedBlocks(sb *coin.SignedBlock) {
 		m := headerMuts[r.Intn(len(headerMuts))]
 		b := *sb
 		b.Body.Transactions = append(coin.Transactions{}, sb.Body.Transactions...)
+		stripTarget := false
 		resign := true
 		sk := secKey
 		switch m {
@@ -1202,6 +1203,15 @@ func (g *genCtx) mutatedBlocks(sb *coin.SignedBlock) {
 					b.Head.BodyHash = b.Body.Hash()
 				}
 			}
+		case "strip-txs":
+			// the whole transaction list removed, header and body hash untouched (or recomputed): an arbitrating node
+			// does not refuse an empty list in processTransactions, so only the body-hash comparison stands between
+			// this block and the chain (seeded change C04-h); sent to the arbitrating publisher half of the time
+			b.Body.Transactions = coin.Transactions{}
+			if r.Chance(25) {
+				b.Head.BodyHash = b.Body.Hash()
+			}
+			stripTarget = true
 		case "dup-tx":
 			if len(b.Body.Transactions) > 0 {
 				b.Body.Transactions = append(b.Body.Transactions, b.Body.Transactions[0])
@@ -1225,7 +1235,7 @@ func (g *genCtx) mutatedBlocks(sb *coin.SignedBlock) {
 			}
 		}
 		tgt := "F"
-		if r.Chance(25) {
+		if r.Chance(25) || (stripTarget && r.Chance(50)) {
 			tgt = "P"
 		}
 		g.emit("exec " + tgt + " " + encodeBlock(&b))
